@@ -37,6 +37,7 @@ type symbol struct {
 	Twin     bool  // the text is twinText (near-identical data blocks)
 	Latin1   bool  // written with the ISO-8859-1 hint (byte-aligned data: padText)
 	pad      []int // (block, phase) of padText, for replay records
+	qrValues bool  // QR value-coverage symbol (qrValueText, ISO-8859-1 hint)
 	dmValues int   // Data Matrix value-coverage symbol: 1.. = kind of dmValueText (0 = the ordinary payload)
 
 	w, h    int
